@@ -362,6 +362,8 @@ def plan(prop, tier):
                                                    kw['backend'], kw.get('keymap', 'raw'), kw.get('N', 0))
         if kw.get('args'):
             kw['name'] += '/%s%s' % (kw['args'], '+deep' if kw.get('deep') else '')
+        if kw.get('ignore'):
+            kw['name'] += '/ignore=%s' % ','.join(map(str, kw['ignore']))
         if kw.get('pickle_after'):
             kw['name'] += '/after%d' % kw['pickle_after']
         if kw.get('canary'):
@@ -400,7 +402,11 @@ def plan(prop, tier):
                         add(scenario='pickle', module=m, algo=a, backend=b, N=after + (2 if q else 3), pickle_after=after,
                             keymap='raw' if m == 'std' else 'default')
                 # keymaps with state of their own: composed (a + b), typed, sentinel
-                for km in (('chain', 'rawsent') if q else ('chain', 'chainnf', 'rawsent', 'rawtyped', 'str', 'md5nf')):
+                for km in (('chain', 'rawsent', 'rawSENTINEL') if q else ('chain', 'chainnf', 'rawsent', 'rawSENTINEL', 'rawtyped', 'str', 'md5nf')):
                     add(scenario='pickle', module=m, algo=a, backend='cached_dict', N=4, pickle_after=2, keymap=km)
+                # keys that hold klepto's own marker objects (the placeholder of an ignored argument)
+                add(scenario='pickle', module=m, algo=a, backend='cached_dict', N=4, pickle_after=2, keymap='raw', ignore=['x'])
+                if not q:
+                    add(scenario='pickle', module=m, algo=a, backend='none', N=4, pickle_after=2, keymap='rawnf', ignore=['x'])
         add(scenario='pickle', module='std', algo='lru', backend='none', N=3, pickle_after=1, canary=True)
     return cfgs
